@@ -316,11 +316,11 @@ def run_property(prop, spec, tier, seed, replay=None):
         for _ in range(3):
             try:
                 r = subprocess.run([vbuild.binpath(j.replay_flavour, j.replay_bin), '--prop', prop, '--replay', path],
-                                   stdout=subprocess.PIPE, stderr=subprocess.STDOUT, env=san_env(j.replay_flavour), cwd=VERIF, timeout=300)
+                                   stdout=subprocess.PIPE, stderr=subprocess.STDOUT, env=san_env(j.replay_flavour), cwd=VERIF, timeout=150)
                 if r.returncode != 0:
                     confirmed += 1
             except subprocess.TimeoutExpired:
-                confirmed += 1   # a replay that does not return within 5 minutes reproduces a hang
+                confirmed += 1   # a replay that does not return reproduces a hang
         if confirmed == 0:
             unconfirmed.append(path); continue
         key = case_key(path)
